@@ -20,6 +20,15 @@ def signature(m):
     return [t[0], "roots=%d" % min(t.count("R"), 3)]
 
 
+def violates(m):
+    """The property speaks about roots: a mismatch violates it iff some root (or the caller-buffer flag) differs;
+    a difference in the cache size only is a model/implementation correspondence difference."""
+    a, b = m["impl"].split(" "), m["model"].split(" ")
+    if len(a) != len(b):
+        return True
+    return any(x.split("/")[0] != y.split("/")[0] for x, y in zip(a, b))
+
+
 MANIFEST = dict(
     text="Proof (Coq, for all histories and every hash function H): over any sequence of root computations (any, possibly changing, capacity), "
          "explicit clears and evictions of arbitrary entries, from any cache satisfying the invariant 'every entry of key k is (H v, H(leaf k v)) "
